@@ -641,6 +641,11 @@ VARINT_TEXT = {   # the loops Model/VarintBits.v transcribes (whitespace-normali
                        "*buffer_ptr_++ = static_cast<uint8_t>(value);",
     "py:write_unsigned_varint": "int_val = int(value) # bitwise ops not supported on numpy types while True: if int_val < 0x80: "
                                 "self.write_byte_no_check(int_val) return self.write_byte_no_check((int_val & 0x7F) | 0x80) int_val >>= 7",
+    "py:read_unsigned_varint": "result = 0 shift = 0 while True: if self._last_read_count - self._offset < 1: self._fill_buffer(1) "
+                               "byte = self._buffer[self._offset] self._offset += 1 result |= (byte & 0x7F) << shift "
+                               "if byte < 0x80: return result shift += 7",
+    "cpp:ReadVarIntegerFastFromArray": "value = 0; int shift = 0; while (true) { uint8_t byte = *local_buffer_ptr++; "
+                                       "value |= static_cast<T>(byte & 0x7F) << shift; if ((byte & 0x80) == 0) { break; } shift += 7; }",
 }
 
 
@@ -662,6 +667,12 @@ def varint_text_tie(ctx):
         m = re.search(r"    def write_unsigned_varint\(.*?\) -> None:\n.*?self\.flush\(\)\n(.*?)\n\n    def ", py, re.S)
         if m:
             found["py:write_unsigned_varint"] = norm(m.group(1))
+        m = re.search(r"    def read_unsigned_varint\(self\) -> int:\n(.*?)\n\n    def ", py, re.S)
+        if m:
+            found["py:read_unsigned_varint"] = norm(m.group(1))
+        m = re.search(r"  static void ReadVarIntegerFastFromArray\(T& value, uint8_t\*& local_buffer_ptr\) \{\n(.*?)\n  \}\n", cpp, re.S)
+        if m:
+            found["cpp:ReadVarIntegerFastFromArray"] = norm(m.group(1))
     except OSError as e:
         found = {"error": str(e)}
     for key, want in VARINT_TEXT.items():
